@@ -3,4 +3,4 @@
 
 package vars
 
-func VerifCacheLen() int { return programCache.VerifLen() }
+func VerifCacheLen() int { return programCache.VerifLen() + programCachePv.VerifLen() }
